@@ -102,12 +102,13 @@ func (c02Engine) Gen(seed uint64, idx int, tier string) interface{} {
 	if r.Chance(1, 4) {
 		sc.Raw = genTypedProbe(r, sc.Env)
 		sc.Source = sc.Raw
-		sc.Marks = append(sc.Marks, "Ff")
+		sc.Marks = append(sc.Marks, "Ff", "CL")
 		return sc
 	}
 	cfg := GenCfg{Budget: r.Range(4, 36), Calls: true, Dyn: r.Chance(1, 2), Failing: r.Chance(2, 3), Strings: true,
 		Closures: r.Chance(3, 4), Maps: r.Chance(1, 2), Objects: r.Chance(1, 2), ShortPred: r.Chance(1, 2), NilSafe: r.Chance(1, 3), SliceCall: true, ConstFns: true}
 	cfg.AnyUsable = sc.Rep != RepMap || (sc.Env.Any != nil && sc.Env.Any.Kind == "int")
+	cfg.MapRep = sc.Rep == RepMap
 	g := NewGen(r.Fork(), cfg)
 	sc.Tree = genRoot(g, r)
 	if r.Chance(1, 3) {
@@ -176,7 +177,7 @@ func genTypedProbe(r *RNG, d *EnvData) string {
 		return fmt.Sprint(i)
 	}
 	in := r.Pick([]string{"in", "not in"})
-	switch r.Intn(9) {
+	switch r.Intn(12) {
 	case 0: // membership in a literal range, boundaries at the operand's value
 		a := near()
 		b := a + r.Range(-1, 3)
@@ -197,6 +198,16 @@ func genTypedProbe(r *RNG, d *EnvData) string {
 		return fmt.Sprintf("(%d..%d)[%s]", r.Range(-2, 2), r.Range(3, 9), r.Pick([]string{"U8 % 3", "I8 - I8", "len(Ys)", "K"}))
 	case 7: // mixed literal arrays are not folded; homogeneous ones are
 		return fmt.Sprintf("%s %s [%s, %s]", o.src, in, lit(near()), r.Pick([]string{"1.5", "\"a\"", "nil", "2", "A"}))
+	case 9: // two literal collections whose contents print alike (constant-pool identity)
+		return r.Pick([]string{
+			`(A in [1, 2]) == (S in ["1", "2"])`,
+			`len(["a b", "c"]) + len(["a", "b", "c"])`,
+			`[A in [1, 2, 3], S in ["1", "2", "3"], len([1, 2, 3]), len(["1 2", "3"])]`,
+			`(O.V in [1, 0]) or (T in ["1", "0"])`,
+			`[len([1, 2]), len(["1", "2"]), len(1..2)]`,
+		})
+	case 10: // a ConstExpr function returning a named integer type through interface{}
+		return fmt.Sprintf("CL(%d) %s", r.Range(0, 3), r.Pick([]string{"== 1", "== 0", "in 0..2", "in [0, 1]", "not in 1..3", "!= 2"}))
 	default: // ConstExpr float function with folded arguments under a comparison
 		return fmt.Sprintf("Ff(%d) %s %s", r.Range(0, 4), r.Pick([]string{"==", "<", ">="}), o.src)
 	}
